@@ -6,7 +6,7 @@ PROPERTY = "C26"
 META = {
     "category": "proof",
     "technique": "contract-based deductive verification: VCs from the real Python AST + sidecar contracts, z3/cvc5",
-    "text": "Kernel-level proof for all chunkings, depths (symmetric or (left, right) per axis) and sizes: ensure_minimum_chunksize keeps the total and makes every chunk >= depth (or raises exactly when the array is too small); _overlap_internal_chunks grows first/interior/last blocks by exactly the shared depths; the chunk arithmetic of trim_internal removes exactly those; client theorem: overlapping then trimming the chunk tuples is the identity. Halo contents, boundary modes and map_overlap values are NumPy-level: bounded native runs.",
+    "text": "Kernel-level proof for all chunkings, depths (symmetric or (left, right) per axis) and sizes: ensure_minimum_chunksize keeps the total and makes every chunk >= depth (or raises exactly when the array is too small); _overlap_internal_chunks grows first/interior/last blocks by exactly the shared depths; the chunk arithmetic of trim_internal removes exactly those; overlap() itself (fragment: the rechunk-or-refuse step) hands on an array whose every chunk holds both depths of its axis -- via _get_overlap_rechunked_chunks when allow_rechunk, unchanged otherwise, and raises exactly when some chunk is smaller than the larger depth and rechunking is not allowed; client theorem: overlapping then trimming the chunk tuples is the identity. Halo contents, boundary modes and map_overlap values are NumPy-level: bounded native runs.",
     "note": "Trusted: self-built VC generator, SMT solvers, builtin models (len/min/sum/append), psum axioms. Not covered: NumPy halo contents, boundary modes, sliding_window_view, map_overlap function application.",
     "design_ref": "DESIGN.md §5.10",
 }
@@ -74,4 +74,4 @@ def replay_native(native):
 
 
 # thorough tier: deliberate edits that must turn an obligation red (applied to a scratch copy, never to /repo)
-MUTATIONS = [('contracts.overlap', '_get_overlap_rechunked_chunks', 'dask/array/overlap.py', 'depths = [max(d) if isinstance(d, tuple) else d for d in depth2.values()]\n    # rechunk if new chunks are needed to fit depth in every chunk\n    return tuple(', 'depths = [(d[0] or d[1]) if isinstance(d, tuple) else d for d in depth2.values()]\n    # rechunk if new chunks are needed to fit depth in every chunk\n    return tuple('), ('contracts.overlap', 'ensure_minimum_chunksize', 'dask/array/overlap.py', '            if new > size + (size - c):', '            if new > size:'), ('contracts.overlap', '_overlap_internal_chunks', 'dask/array/overlap.py', '            left = [bds[0] + right_depth]', '            left = [bds[0] + left_depth]'), ('contracts.overlap', 'trim_internal', 'dask/array/overlap.py', '                d = d - overlap[1] if j != len(bd) - 1 else d', '                d = d - overlap[0] if j != len(bd) - 1 else d')]
+MUTATIONS = [('contracts.overlap', 'overlap[chunks fit the depth]', 'dask/array/overlap.py', '        original_chunks_too_small = any(min(c) < d for d, c in zip(depths, x.chunks))', '        original_chunks_too_small = any(max(c) < d for d, c in zip(depths, x.chunks))'), ('contracts.overlap', '_get_overlap_rechunked_chunks', 'dask/array/overlap.py', 'depths = [max(d) if isinstance(d, tuple) else d for d in depth2.values()]\n    # rechunk if new chunks are needed to fit depth in every chunk\n    return tuple(', 'depths = [(d[0] or d[1]) if isinstance(d, tuple) else d for d in depth2.values()]\n    # rechunk if new chunks are needed to fit depth in every chunk\n    return tuple('), ('contracts.overlap', 'ensure_minimum_chunksize', 'dask/array/overlap.py', '            if new > size + (size - c):', '            if new > size:'), ('contracts.overlap', '_overlap_internal_chunks', 'dask/array/overlap.py', '            left = [bds[0] + right_depth]', '            left = [bds[0] + left_depth]'), ('contracts.overlap', 'trim_internal', 'dask/array/overlap.py', '                d = d - overlap[1] if j != len(bd) - 1 else d', '                d = d - overlap[0] if j != len(bd) - 1 else d')]
